@@ -8,8 +8,8 @@ set -u
 WT="$(readlink -f "$1")"; ID="$2"; shift 2
 H="/tmp/vh-$(basename "$WT")"
 mkdir -p "$H"
-rsync -a --delete --exclude target /verif/harness/ "$H/harness/"
+rsync -a --delete --exclude 'target*' /verif/harness/ "$H/harness/"
 sed -i "s#/repo/rs#$WT/rs#g" "$H/harness/Cargo.toml"
-cp /verif/check "$H/check"
+cp /verif/check "$H/check"; rsync -a /verif/tools/ "$H/tools/"
 cp /verif/known_findings.json "$H/" 2>/dev/null || true
 cd "$H" && VERIF_ROOT="$H" ./check "$ID" "$@"
